@@ -108,6 +108,15 @@ static void h_op(void)
     int64_t k = h_argi("k", 1), i; uint64_t h = 0xcbf29ce484222325ULL; uint32_t x = 0;
     for (i = 0; i < k; i++) { x = esl_random_uint32(R); h = fnv(h, x); }
     h_out("ok h=%016" PRIx64 " last=%" PRIu32, h, x);
+  } else if (!strcmp(op, "w32") || !strcmp(op, "w64")) {   /* the raw words themselves (k <= 2000), for the reference-stream monitor */
+    int64_t k = h_argi("k", 1), i; char *buf, *q;
+    if (k < 0 || k > 2000) { h_out("bad-op"); return; }
+    buf = malloc(22 * (size_t)(k + 1) + 8); q = buf; q += sprintf(q, "ok ");
+    for (i = 0; i < k; i++) {
+      if (op[1] == '3') q += sprintf(q, "%s%" PRIu32, i ? "," : "", esl_random_uint32(R));
+      else              q += sprintf(q, "%s%" PRIu64, i ? "," : "", esl_rand64(R64));
+    }
+    h_out("%s", buf); free(buf);
   } else if (!strcmp(op, "roll")) {
     h_out("ok %d", esl_rnd_Roll(R, (int) h_argi("n", 1)));
   } else if (!strcmp(op, "random")) {
